@@ -341,8 +341,18 @@ def impl_e2e(case):
         out = out.decode("utf-8", "surrogatepass") if isinstance(out, bytes) else out
         sh2 = css_parser.CSSParser(fetcher=fetcher, validate=False).parseString(out)
         urls2 = list(css_parser.getUrls(sh2))
+        # second call on the same sheet (theorems replace_compose / replace_keeps_url_count): a non-idempotent
+        # replacer, so a URL rewritten twice or skipped by one call shows
+        calls2 = []
+
+        def repl2(u):
+            calls2.append(u)
+            return "z" + u
+        css_parser.replaceUrls(sh, repl2, ignoreImportRules=bool(ign))
+        tree3 = extract_tree(sh)
+        urls3 = list(css_parser.getUrls(sh))
         return {"tree0": tree0, "urls0": urls0, "calls": calls, "tree1": tree1, "urls1": urls1, "urls2": urls2,
-                "out": out}
+                "out": out, "calls2": calls2, "tree3": tree3, "urls3": urls3}
     except Exception as e:  # noqa
         return {"EXC": type(e).__name__, "msg": str(e)[:300]}
 
@@ -475,6 +485,17 @@ def oracle(tree, imports, urls, mode, arg, ign, res):
                 "getUrls after replace")
     if blank_tree(res["tree1"]) != blank_tree(res["tree0"]):
         return "replaceUrls changed something other than URL strings", "frame"
+    if "urls3" in res:
+        nimp = len(imports)
+        want3 = (want1[:nimp] if ign else ["z" + u for u in want1[:nimp]]) + ["z" + u for u in want1[nimp:]]
+        if res["calls2"] != (want1[nimp:] if ign else want1):
+            return ("a second replaceUrls called the replacer with %r, the sheet's URLs are now %r"
+                    % (res["calls2"], want1[nimp:] if ign else want1), "replacer calls second")
+        if res["urls3"] != want3:
+            return ("two replaceUrls calls are not one call with the composed replacer: getUrls yields %r, expected %r"
+                    % (res["urls3"], want3), "compose")
+        if blank_tree(res["tree3"]) != blank_tree(res["tree0"]):
+            return "a second replaceUrls changed something other than URL strings", "frame second"
     if all(in_set(u) for u in want1) and res["urls2"] != want1:
         lost = [u for u in want1 if u not in res["urls2"]]
         return ("URLs do not survive output: serialised and re-parsed sheet yields %r, expected %r"
